@@ -9,23 +9,43 @@
 (* printed as VIOL with the names of the clauses it breaks; the rest of    *)
 (* that behaviour is skipped (the model state is no longer meaningful)     *)
 (* and validation resumes at the next reset.                               *)
+(*                                                                         *)
+(* The open -> half-open change is LAZY: the statement fixes what a call   *)
+(* meets after the deadline, not at which critical section the breaker     *)
+(* notices that the deadline has passed.  The model notices it in every    *)
+(* critical section (like the code today); an implementation that leaves   *)
+(* it to the next admission is just as right.  So snapshots are compared   *)
+(* after applying the pending lazy change to both sides (NormB), and the   *)
+(* hook sequence is compared up to one owed open -> half-open hook (owe).  *)
 (***************************************************************************)
 EXTENDS Breaker, Json, IOUtils
 
 Trace == ndJsonDeserialize(IOEnv.VERIF_TRACE)
 
-VARIABLES l, lost
-tvars == <<b, call, last, l, lost>>
+VARIABLES l, lost,
+          owe    \* the model has already made the lazy open -> half-open change, the implementation has not yet
+tvars == <<b, call, last, l, lost, owe>>
 
 SeqToSet(s) == { s[i] : i \in DOMAIN s }
 ObsHooks(r) == [i \in DOMAIN r.hooks |-> <<r.hooks[i][1], r.hooks[i][2]>>]
 
 Snap(bb) == [st |-> bb.st, cur |-> bb.cur, succ |-> bb.succ, fail |-> bb.fail, rem |-> bb.rem, gen |-> bb.gen]
+NormB(bb, cl) == Lazy(S0(bb, cl)).b            \* the state with the pending lazy change applied
+Pending(bb) == bb.st = "open" /\ bb.rem < 0
+LZ == <<"open", "half">>
+\* hooks expected from the implementation in this step: what the model did, preceded by the change it still owed
+ExpHooks(s) == IF owe THEN <<LZ>> \o s.hooks ELSE s.hooks
+OweAfter(r, s) == Pending(Snap(r.snap)) /\ ~Pending(s.b)
+HooksOK(r, s) ==
+   LET e == ExpHooks(s) IN
+   IF OweAfter(r, s) THEN Len(e) >= 1 /\ e[1] = LZ /\ ObsHooks(r) = Tail(e)
+   ELSE ObsHooks(r) = e
 
 \* clauses of the statement a step can break, from what was observed
 Broken(r, s, pre, precall) ==
    LET eff == IF pre.st = "open" /\ pre.rem < 0 THEN "half" ELSE pre.st
-       o == r.snap
+       o == NormB(Snap(r.snap), s.call)      \* observed and predicted state, both with the pending lazy change applied
+       m == NormB(s.b, s.call)
    IN { n \in {"C15_ClosedAdmitsAll", "C15_OpenRejectsWithoutRunning", "C15_HalfOpenCap", "C15_Result",
                "C15_State", "C15_Counters", "C15_InFlight", "C15_Backoff", "C15_Generation", "C15_Hooks", "C15_StaleIsInert"} :
         CASE n = "C15_ClosedAdmitsAll" -> r.ev = "begin" /\ eff = "closed" /\ r.res # "admitted"
@@ -33,15 +53,15 @@ Broken(r, s, pre, precall) ==
           [] n = "C15_HalfOpenCap" -> \/ r.ev = "begin" /\ eff = "half" /\ r.res # s.res
                                       \/ o.st = "half" /\ Cardinality({c \in Calls : s.call[c] = "fresh"}) > Cap
           [] n = "C15_Result" -> r.res # s.res
-          [] n = "C15_State" -> o.st # s.b.st
-          [] n = "C15_Counters" -> o.succ # s.b.succ \/ o.fail # s.b.fail
-          [] n = "C15_InFlight" -> o.cur < 0 \/ o.cur # r.running \/ o.cur # s.b.cur
-          [] n = "C15_Backoff" -> o.rem # s.b.rem \/ r.backoffs # s.backoffs
-          [] n = "C15_Generation" -> o.gen # s.b.gen
-          [] n = "C15_Hooks" -> ObsHooks(r) # s.hooks
-          [] n = "C15_StaleIsInert" -> r.ev = "end" /\ precall[r.c] = "stale" /\ (o.st # s.b.st \/ o.succ # s.b.succ \/ o.fail # s.b.fail) }
+          [] n = "C15_State" -> o.st # m.st
+          [] n = "C15_Counters" -> o.succ # m.succ \/ o.fail # m.fail
+          [] n = "C15_InFlight" -> o.cur < 0 \/ o.cur # r.running \/ o.cur # m.cur
+          [] n = "C15_Backoff" -> o.rem # m.rem \/ r.backoffs # s.backoffs
+          [] n = "C15_Generation" -> o.gen # m.gen
+          [] n = "C15_Hooks" -> ~HooksOK(r, s)
+          [] n = "C15_StaleIsInert" -> r.ev = "end" /\ precall[r.c] = "stale" /\ (o.st # m.st \/ o.succ # m.succ \/ o.fail # m.fail) }
 
-TInit == /\ b = B0 /\ call = [c \in Calls |-> "idle"] /\ last = [ev |-> "init"] /\ l = 1 /\ lost = FALSE
+TInit == /\ b = B0 /\ call = [c \in Calls |-> "idle"] /\ last = [ev |-> "init"] /\ l = 1 /\ lost = FALSE /\ owe = FALSE
          /\ TLCSet(1, 1)
 
 StepF(r) ==
@@ -60,15 +80,15 @@ TStep ==
    /\ l <= Len(Trace)
    /\ LET r == Trace[l] IN
         IF r.ev = "reset" THEN
-           /\ b' = B0 /\ call' = [c \in Calls |-> "idle"] /\ lost' = FALSE
+           /\ b' = B0 /\ call' = [c \in Calls |-> "idle"] /\ lost' = FALSE /\ owe' = FALSE
            /\ IF Snap(B0) = r.snap THEN TRUE ELSE PrintT(<<"VIOL", l, {"C15_InitialState"}>>)
-        ELSE IF lost THEN UNCHANGED <<b, call, lost>>
+        ELSE IF lost THEN UNCHANGED <<b, call, lost, owe>>
         ELSE IF ~Enabled(r) THEN
            /\ PrintT(<<"VIOL", l, {"HARNESS_EventNotEnabled"}>>)
-           /\ lost' = TRUE /\ UNCHANGED <<b, call>>
+           /\ lost' = TRUE /\ UNCHANGED <<b, call, owe>>
         ELSE LET s == StepF(r)
                  br == Broken(r, s, b, call)
-             IN /\ b' = s.b /\ call' = s.call
+             IN /\ b' = s.b /\ call' = s.call /\ owe' = OweAfter(r, s)
                 /\ IF br = {} THEN lost' = FALSE ELSE PrintT(<<"VIOL", l, br>>) /\ lost' = TRUE
    /\ last' = [ev |-> "trace"]
    /\ l' = l + 1
